@@ -162,6 +162,8 @@ class SymSeqV(Val):
         r = SymSeqV(ln, lambda i: fn(i).subst(var, e), self.pytype)
         if hasattr(self, 'keyview'):
             r.keyview = self.keyview
+        if hasattr(self, 'range'):
+            r.range = tuple(z3.substitute(t, (var, e)) for t in self.range)
         return r
 
     def retype(self, pytype):
@@ -241,6 +243,13 @@ class StageV(Val):
         self.cls = cls
         self.args = args
         self.kwargs = kwargs
+
+    def subst(self, var, e):
+        def sub(a):
+            if isinstance(a, tuple):
+                return (a[0], a[1].subst(var, e))
+            return a.subst(var, e)
+        return StageV(self.cls, [sub(a) for a in self.args], {k: sub(v) for k, v in self.kwargs.items()})
 
     def __repr__(self):
         return 'StageV(%s, %r, %r)' % (self.cls, self.args, self.kwargs)
